@@ -68,7 +68,7 @@ def run(ctx):
     ops = []
     pool = ["N", "N", "S", "W7", "W0", "T5.0", "T0.9", "K8", "K16", "E", "R77.0", "R254.2", "M1460", "M0", "M536", "M65535"]
     mtus = [41, 61, 62, 100, 576, 1500, 1492, 9000, 65535, 40, 60, 1]
-    for _ in range(ctx.n(25000, 500000)):
+    for _ in range(ctx.n(25000, 150000)):    # ~10 ms per op (Scapy builds and dissects the packet): 150 000 keep the thorough tier under half an hour
         n = r.randrange(0, 8)
         opts = [r.choice(pool) for _ in range(n)]
         if r.random() < 0.5:
